@@ -178,6 +178,7 @@ func RunPlan(pr *Profile, p *Plan, keep bool) *Outcome {
 		}
 		e.Begin()
 		w = &World{Env: e, Plan: p}
+		resetTableSlices()
 		w.root, w.stop = context.WithCancel(context.Background())
 		if p.Client.Admin {
 			w.Admin = gohbase.VerifNewAdminClient(e.ZK, clientOptions(e, p.Client)...)
